@@ -11,9 +11,9 @@ import (
 
 type c11In struct {
 	K    string `json:"k"` // conj | entry | rr | cast
-	Doc  int64  `json:"doc,omitempty"`
-	Idx  int    `json:"idx,omitempty"`
-	Size int    `json:"size,omitempty"`
+	Doc  int64  `json:"doc"`
+	Idx  int    `json:"idx"`
+	Size int    `json:"size"`
 	C1   uint64 `json:"c1,omitempty"`
 	C2   uint64 `json:"c2,omitempty"`
 	I1   bool   `json:"i1,omitempty"`
